@@ -45,7 +45,7 @@ P = {
    "§4 C08"),
  "C09": (True,
    "SSA mod-summary analysis over go/ssa with a CHA call graph (which parameters / captured variables / package variables may a function write through, to a fixpoint; allocations and received elements are fresh) + closure-cell ownership lint + element-purity (no store into an object that travels through channels by pointer and was not allocated by the storing function)",
-   "Static analysis of the mechanism the property anchors: no store, map update or delete reachable from any Compute/Report/IdlePeriod/Name/String method of the indicator and strategy types (through static calls, interface calls resolved by class-hierarchy analysis, goroutines and closures) goes through the receiver or to a package-level variable, so all per-run state is allocated per call; and every mutable local captured by a function that a stage runs in its goroutine has that function as its only user. With C03's determinacy and linearity rules this makes repeated and concurrent calls independent. Not a dynamic race detection and silent about third-party code.",
+   "Static analysis of the mechanism the property anchors: no store, map update or delete reachable from any Compute/Report/IdlePeriod/Name/String method of the indicator and strategy types (through static calls, interface calls resolved by class-hierarchy analysis, goroutines and closures) goes through the receiver or to a package-level variable, so all per-run state is allocated per call; and every mutable local captured by a function that a stage runs in its goroutine has that function as its only user; the indicator and strategy packages keep no package-level variable whose type can hold a reference (nothing for a constructor to share between instances). With C03's determinacy and linearity rules this makes repeated and concurrent calls independent. Not a dynamic race detection and silent about third-party code.",
    "Trusts go/ssa, the CHA call graph and the freshness model (allocations, constructor results, received channel elements are not shared); aliasing is field-insensitive (over-approximate).",
    "§4 C09"),
  "C10": (True,
@@ -65,12 +65,12 @@ P = {
    "§4 C12"),
  "C13": (True,
    "typed-AST protocol lints on Backtest.Run/worker (incl. the asset loop is left only when the name channel is exhausted) + SSA shared-write analysis rooted at `go b.worker` + go/cfg lock-state lints on both report types + comparator totality lint",
-   "Static analysis of structural conditions: Begin before the workers, End after Wait; per asset AssetBegin, exactly one Write per strategy (unconditional, fed by ComputeWithOutcome of that strategy on a fresh SliceToChan), AssetEnd; nothing reachable from a worker writes shared memory without a mutex, and both bundled reports touch their maps only under the mutex on every path; sort comparators do not convert a float difference to int; every slice index in package backtest is the key of a range over that slice, a constant below the constant count of helper.Duplicate, or protected by a length check ('no run crashes'). Equality of the reported numbers with a direct evaluation is not decided.",
+   "Static analysis of structural conditions: Begin before the workers, End after Wait; per asset AssetBegin, exactly one Write per strategy (unconditional, fed by ComputeWithOutcome of that strategy on a fresh SliceToChan), AssetEnd; nothing reachable from a worker writes shared memory without a mutex, and both bundled reports touch their maps only under the mutex on every path; sort comparators do not convert a float difference to int, put the larger outcome first on all three orderings of two outcomes, and the entry presented as best is the first of the sorted slice; what a report appends to during a run starts empty in Begin/AssetBegin; every slice index in package backtest is the key of a range over that slice, a constant below the constant count of helper.Duplicate, or protected by a length check ('no run crashes'). Equality of the reported numbers with a direct evaluation is not decided.",
    "Trusts go/types, go/ssa+CHA, go/cfg. Repaired: unsynchronised reports (bd51cda), int(float difference) comparators (9dddcd8), HTMLReport.AssetEnd results[0] on an empty list (2e636f6).",
    "§4 C13"),
  "C14": (True,
    "stream-shape calculus on every strategy Report: each column stream vs. the date stream (length and anchor), symbolic in the periods; the indicator warm-up contracts used on the way are re-proved; value terms of the date, Close, annotation and Outcome columns",
-   "Static analysis. The report template zips the date stream with one Value() per column per row; for all 40 Report methods every column found in the constructed helper.Report is proved to have exactly the date stream's length and anchor for all admissible configurations and every n beyond the warm-up.",
+   "Static analysis. The report template zips the date stream with one Value() per column per row; every ReportColumn type's Value() is exactly one unconditional receive from its own stream; for all 40 Report methods every column found in the constructed helper.Report is proved to have exactly the date stream's length and anchor for all admissible configurations and every n beyond the warm-up.",
    "Trusts go/types, the template's zip semantics (its shape is re-checked on every run), contracts (C02, C05), Γ, Fourier–Motzkin. The Alligator/SMMA report columns inherit the pinned C05 defect (known findings); the APO column was repaired (fix: d5cfb51).",
    "§4 C14"),
  "C02": (True,
@@ -90,7 +90,7 @@ P = {
    "§4 C18"),
  "C19": (True,
    "typed-AST + go/cfg path lints on the reader goroutines and the HTTP client: bounds guard before indexing a decoded record, close deferred before any exit, error branches leave the loop, Body.Close on every path after a successful request, status check, file closed after the reader",
-   "Static analysis of this repository's own reader code, not of the decoders: every index into a decoded CSV record is guarded against len(record); every reader goroutine closes its channel on all exits (go/cfg may-analysis); every error branch in a reader loop leaves the loop; ReadFromFile closes the file after the reader finished; in the Tiingo client a non-200 status is an error before decoding and the response body is closed on every control-flow path after a successful request; JSONToChan checks the opening delimiter. The behaviour of encoding/csv, encoding/json and net/http on arbitrary bytes is not decided.",
+   "Static analysis of this repository's own reader code, not of the decoders: every index into a decoded CSV record is guarded against len(record); every reader goroutine closes its channel on all exits (go/cfg may-analysis); every error branch in a reader loop leaves the loop; ReadFromFile closes the file after the reader finished; in the Tiingo client a non-200 status is an error before decoding and the response body is closed on every control-flow path after a successful request; JSONToChan checks the opening delimiter; no JSON document is decoded into a pointer to a pointer (`null` would nil it and the caller dereferences). The behaviour of encoding/csv, encoding/json and net/http on arbitrary bytes is not decided.",
    "Trusts go/types, go/cfg, and encoding/csv's field-count check for rows after the first. Repaired: unguarded record index (029c59c), Tiingo body leaks (d70d16c).",
    "§4 C19"),
  "C15": (True,
